@@ -185,8 +185,34 @@ def strip_coq_comments(text):
     return ''.join(out)
 
 
-def forbidden_scan():
-    """no Admitted/admit/Axiom/... anywhere in the development (comments and strings excluded)"""
+def dep_closure(prop):
+    """the .v files Props/<prop>.v (transitively) requires inside the development"""
+    th = os.path.join(COQ, 'theories')
+    todo, seen = [os.path.join(th, 'Props', prop + '.v'), os.path.join(th, 'Check', prop + 'Check.v')], set()
+    while todo:
+        f = todo.pop()
+        if f in seen or not os.path.exists(f):
+            continue
+        seen.add(f)
+        code = strip_coq_comments(open(f, errors='replace').read())
+        name_re = r"[A-Za-z_][\w']*(?:\.[A-Za-z_][\w']*)*"
+        for m in re.finditer(r'(?:From\s+(\S+)\s+)?Require\s+(?:Import\s+|Export\s+)?((?:' + name_re + r'\s+)*' + name_re + r')\s*\.(?=\s|$)', code):
+            frm = m.group(1)
+            if frm and frm != 'Regal':
+                continue
+            for name in m.group(2).split():
+                if name.startswith('Regal.'):
+                    name = name[len('Regal.'):]
+                cand = os.path.join(th, *name.split('.')) + '.v'
+                if os.path.exists(cand):
+                    todo.append(cand)
+    return seen
+
+
+def forbidden_scan(prop=None):
+    """no Admitted/admit/Axiom/... in the development (comments and strings excluded); with prop, only in
+    the files that property's theorems and check depend on"""
+    only = dep_closure(prop) if prop else None
     hits = []
     pat = re.compile(r'\b(Admitted|admit|Axiom|Axioms|Parameter|Parameters|Conjecture|Conjectures|Hypothesis|Variable|Variables|Hypotheses)\b|Unset\s+Guard|bypass_check|type-in-type|impredicative-set|Admit\s+Obligations|Unset\s+Positivity|Unset\s+Universe')
     for root, _, files in os.walk(os.path.join(COQ, 'theories')):
@@ -194,6 +220,8 @@ def forbidden_scan():
             if not f.endswith('.v'):
                 continue
             p = os.path.join(root, f)
+            if only is not None and p not in only:
+                continue
             stack = []
             code_lines = strip_coq_comments(open(p, errors='replace').read()).split('\n')
             for i, code in enumerate(code_lines, 1):
